@@ -209,7 +209,6 @@ func MergeBytes(c *Term, a, b *Bytes) *Bytes {
 	return r.Norm()
 }
 
-
 var windowMemo = map[*Term]struct {
 	arr  *Term
 	base int64
